@@ -37,6 +37,7 @@ E8 = TEnum("E8", INTS["uint8"], (("A", 1), ("B", 2)))
 E16s = TEnum("E16s", INTS["int16"], (("A", 1), ("B", -2)))
 F32 = TEnum("F32", INTS["uint32"], (("X", 1), ("Y", 4)), flag=True)
 F16 = TEnum("F16", INTS["uint16"], (("P", 1), ("Q", 2), ("R", 8)), flag=True)
+E24 = TEnum("E24", INTS["uint24"], (("A", 1), ("B", 0x010203)))  # enum over a byte-sliced (non struct-packed) integer
 IN = TStruct("in_t", (TField("p", INTS["uint8"]), TField("q", INTS["uint32"])))  # internal padding when aligned
 IN2 = TStruct("in2_t", (TField("p", INTS["uint16"]), TField("q", INTS["uint8"])))  # tail padding when aligned
 ININT = TStruct("inint_t", (TField("p", INTS["uint8"]), TField("q", INTS["int16"])))  # all-integer (null-term capable)
@@ -45,7 +46,7 @@ UN = TStruct("un_t", (TField("w", INTS["uint16"]), TField("b", TArr(INTS["uint8"
 ANON = TStruct("__anon_a", (TField("ax", INTS["uint8"]), TField("ay", INTS["uint16"])))
 NEST2 = TStruct("nest2_t", (TField("h", INTS["uint8"]), TField("i", IN)))
 
-NAMED = {t.name: t for t in (E8, E16s, F32, F16, IN, IN2, ININT, IND, UN, NEST2)}
+NAMED = {t.name: t for t in (E8, E16s, F32, F16, E24, IN, IN2, ININT, IND, UN, NEST2)}
 
 
 def _klass(t, bits) -> str:
@@ -121,6 +122,8 @@ def atoms_wide() -> list[Atom]:
     A.append(atom(TArr(INTS["uint8"], "n0*2")))
     A.append(atom(TArr(INTS["uint16"], "n0-2")))
     A.append(atom(TArr(TPtr(INTS["uint8"]), 2)))
+    A.append(atom(TArr(INTS["uint32"], 0)))  # zero-length array of a struct-packed type
+    A += [atom(E24), atom(TArr(E24, 2)), atom(TArr(E24, "n0"))]
     for st, widths in (
         (INTS["uint8"], (1, 3, 4, 8)),
         (INTS["uint16"], (4, 12, 16)),
